@@ -342,3 +342,16 @@ Example C01_source_range_nonvacuous :
   SV.Extracted.RsRange.rs_range_length {| SV.Rs.Prelude.f_start := 10; SV.Rs.Prelude.f_stop := 0; SV.Rs.Prelude.f_step := -3 |}
     = SV.Rs.Prelude.ROk 4.
 Proof. split; vm_compute; reflexivity. Qed.
+
+(* range == range (equals_range as written today) decides equality of the two arithmetic progressions *)
+Theorem C01_source_range_equals : forall lo1 hi1 st1 lo2 hi2 st2,
+  SV.Rs.Proofs.i32b lo1 -> SV.Rs.Proofs.i32b hi1 -> SV.Rs.Proofs.i32b st1 -> st1 <> 0 ->
+  SV.Rs.Proofs.i32b lo2 -> SV.Rs.Proofs.i32b hi2 -> SV.Rs.Proofs.i32b st2 -> st2 <> 0 ->
+  let n1 := SV.Core.Values.range_len lo1 hi1 st1 in
+  let n2 := SV.Core.Values.range_len lo2 hi2 st2 in
+  n1 <= 2147483647 -> n2 <= 2147483647 ->
+  exists b, SV.Extracted.RsRange.rs_range_equals_range
+              {| SV.Rs.Prelude.f_start := lo1; SV.Rs.Prelude.f_stop := hi1; SV.Rs.Prelude.f_step := st1 |}
+              {| SV.Rs.Prelude.f_start := lo2; SV.Rs.Prelude.f_stop := hi2; SV.Rs.Prelude.f_step := st2 |} = SV.Rs.Prelude.ROk b /\
+            (b = true <-> SV.Rs.Proofs.range_seq lo1 st1 (Z.to_nat n1) = SV.Rs.Proofs.range_seq lo2 st2 (Z.to_nat n2)).
+Proof. exact SV.Rs.Proofs.rs_range_equals_spec. Qed.
